@@ -53,6 +53,8 @@ fn glue_safe(a: &str, b: &str) -> bool {
     match (is_operator(a), is_operator(b)) {
         (true, false) => word(b) || (number(b) && a != "."),
         (false, true) => word(a) || (number(a) && b != "."),
+        // a number directly followed by a keyword / name stays two tokens (`1ELSE`, `0END`, `10OR`): the digits end the number
+        (false, false) => number(a) && a.chars().all(|c| c.is_ascii_digit()) && b.chars().next().map(|c| c.is_ascii_alphabetic()).unwrap_or(false),
         _ => false,
     }
 }
